@@ -41,12 +41,15 @@ func mtGen(t *rapid.T) *sideCase {
 	c := &sideCase{Ann: map[string]string{}}
 	c.Config = rapid.SampledFrom([]string{"", "std", "std", "std", "!classes: 5", "!{{{", "!classes:\n- name: swap\n  allowswap: true\n- name: tracked\n  memtierdconfig: \"policy: {}\"", "!null", "!classes:\n- null"}).Draw(t, "config")
 	c.Ctr = rapid.SampledFrom(sideNames).Draw(t, "ctr")
-	c.Shape = rapid.IntRange(0, 3).Draw(t, "shape")
+	c.Shape = rapid.SampledFrom([]int{0, 0, 0, 0, 1, 2, 3}).Draw(t, "shape")
 	keys := []string{"class", "memory.high", "memory.swap.max", "bogus"}
 	n := rapid.IntRange(0, 5).Draw(t, "nann")
 	for i := 0; i < n; i++ {
 		key := rapid.SampledFrom(keys).Draw(t, "key")
 		val := rapid.SampledFrom(sideHostile).Draw(t, "val")
+		if key == "class" && rapid.IntRange(0, 3).Draw(t, "validClass") != 0 {
+			val = rapid.SampledFrom([]string{"swap", "noswap", "tracked", "plain", "nosuchclass", ""}).Draw(t, "classVal")
+		}
 		switch rapid.IntRange(0, 2).Draw(t, "form") {
 		case 0:
 			c.Ann[key+mtSuffix] = val
